@@ -294,6 +294,44 @@ func c14(c *Ctx) {
 			r.Undecide("R14.W", "write", "", "no file write found in the generator package")
 		}
 	}
+	// ---- R14.U: every emitter reads the schema fields that determine its output ---------------------------
+	r.Rule("R14.U", "use coverage: each emitter of the generator reads (itself or through generator callees) every field of the parsed definition that determines what it emits — a field that is no longer consulted cannot be reflected in the output", 12)
+	{
+		P, O, M, R, E, I := "tlparser.Parameter.", "tlparser.Object.", "tlparser.Method.", "tlparser.MethodResponse.", "gen.enum.", "gen.internalSchema."
+		required := []struct {
+			recv, fn string
+			fields   []string
+		}{
+			{"*Generator", "generateStructParameter", []string{P + "Name", P + "Type", P + "IsVector", P + "IsOptional", P + "BitToTrigger"}},
+			{"*Generator", "generateStructTypeAndMethods", []string{O + "Name", O + "CRC", O + "Parameters", O + "Interface", P + "Name", P + "Type", P + "IsVector", P + "IsOptional", P + "BitToTrigger"}},
+			{"*Generator", "generateSpecificEnum", []string{E + "Name", E + "CRC"}},
+			{"*Generator", "generateArgumentsForMethod", []string{M + "Parameters", P + "Name", P + "Type", P + "IsVector"}},
+			{"*Generator", "generateMethodArgumentForMakingRequest", []string{M + "Name", M + "Parameters", P + "Name", P + "Type"}},
+			{"*Generator", "generateMethodCallerFunc", []string{M + "Name", M + "CRC", M + "Parameters", M + "Response", R + "Type", R + "IsList"}},
+			{"*Generator", "generateMethodFunction", []string{M + "Name", M + "Parameters", M + "Response", R + "Type", R + "IsList", P + "Name", P + "Type", P + "IsVector"}},
+			{"", "createParamsStructFromMethod", []string{M + "Name", M + "CRC", M + "Parameters"}},
+			{"*Generator", "getAllConstructors", []string{I + "Types", I + "SingleInterfaceTypes", I + "Methods", I + "Enums", O + "Name", O + "Interface", M + "Name", E + "Name"}},
+			{"*Generator", "generateInterfaces", []string{I + "Types", O + "Name", O + "Interface"}},
+			{"", "createInternalSchema", []string{"tlparser.Schema.Objects", "tlparser.Schema.Methods", O + "Interface", O + "Name", O + "CRC", O + "Parameters"}},
+			{"", "maxBitflag", []string{P + "BitToTrigger"}},
+			{"", "interfaceIsEnum", []string{O + "Parameters"}},
+		}
+		fr := c.fieldReads()
+		for _, rq := range required {
+			f := c.P.Func(load.GenPkg, rq.recv, rq.fn)
+			if f == nil {
+				r.Undecide("R14.U", "reads:"+rq.fn, "", "emitter not found in the generator package (renamed or removed): its row of the coverage table cannot be checked")
+				continue
+			}
+			var missing []string
+			for _, fld := range rq.fields {
+				if !fr[f][fld] {
+					missing = append(missing, fld)
+				}
+			}
+			r.Check(len(missing) == 0, "R14.U", "reads:"+rq.fn, c.pos(f.Pos()), sprintf("%d fields required; not read any more: %s", len(rq.fields), strings.Join(missing, ", ")))
+		}
+	}
 	// ---- R14.G -----------------------------------------------------------------------------------
 	r.Rule("R14.G", "positional-argument grouping: two neighbouring parameters share one type only if every parameter field that determines the emitted Go type (Type, IsVector) is equal", 1)
 	if ga := c.fn("R14.G", load.GenPkg, "*Generator", "generateArgumentsForMethod"); ga != nil {
@@ -773,4 +811,86 @@ func blocksReachable(reach map[*ssa.BasicBlock]bool, ins []ssa.Instruction) bool
 		}
 	}
 	return false
+}
+
+// fieldReads: for every function of the generator package, the tlparser / internal-schema fields it reads, directly or
+// through generator callees.
+func (c *Ctx) fieldReads() map[*ssa.Function]map[string]bool {
+	direct := map[*ssa.Function]map[string]bool{}
+	var fns []*ssa.Function
+	for f := range c.P.AllFunctions() {
+		if strings.HasPrefix(load.FuncPkgPath(f), load.GenPkg) && len(f.Blocks) > 0 {
+			fns = append(fns, f)
+		}
+	}
+	want := func(n string) bool {
+		return strings.HasPrefix(n, "tlparser.") || strings.HasPrefix(n, "gen.enum.") || strings.HasPrefix(n, "gen.internalSchema.")
+	}
+	for _, f := range fns {
+		m := map[string]bool{}
+		for _, b := range f.Blocks {
+			for _, in := range b.Instrs {
+				switch x := in.(type) {
+				case *ssa.FieldAddr:
+					// a read: the address is loaded somewhere (not only stored to)
+					n := an.FieldName(x.X.Type(), x.Field)
+					if !want(n) || x.Referrers() == nil {
+						continue
+					}
+					for _, rf := range *x.Referrers() {
+						if st, isSt := rf.(*ssa.Store); isSt && st.Addr == ssa.Value(x) {
+							continue
+						}
+						m[n] = true
+					}
+				case *ssa.Field:
+					if n := an.FieldName(x.X.Type(), x.Field); want(n) {
+						m[n] = true
+					}
+				}
+			}
+		}
+		direct[f] = m
+	}
+	// transitive over generator callees (including function literals)
+	out := map[*ssa.Function]map[string]bool{}
+	var visit func(f *ssa.Function, seen map[*ssa.Function]bool, acc map[string]bool)
+	visit = func(f *ssa.Function, seen map[*ssa.Function]bool, acc map[string]bool) {
+		if seen[f] {
+			return
+		}
+		seen[f] = true
+		for k := range direct[f] {
+			acc[k] = true
+		}
+		for _, a := range f.AnonFuncs {
+			visit(a, seen, acc)
+		}
+		for _, cs := range an.Calls(f) {
+			if g := an.StaticCallee(cs.Common); g != nil && direct[g] != nil {
+				visit(g, seen, acc)
+			}
+		}
+	}
+	for _, f := range fns {
+		acc := map[string]bool{}
+		visit(f, map[*ssa.Function]bool{}, acc)
+		out[f] = acc
+	}
+	return out
+}
+
+// FieldReadsDebug prints the table (debug aid).
+func FieldReadsDebug(p *load.Program) []string {
+	c := &Ctx{P: p}
+	fr := c.fieldReads()
+	var out []string
+	for f, m := range fr {
+		if f.Parent() != nil || len(m) == 0 {
+			continue
+		}
+		out = append(out, an.ShortName(f)+": "+strings.Join(an.SortedKeys(m), " "))
+	}
+	sort.Strings(out)
+	return out
 }
